@@ -355,4 +355,222 @@ Section FPP.
     rewrite (sumZ_ext K _ _ _ (fp_col_out 3 H3 (fun s => D (c * n + s)%Z))) by (intros; ring).
     apply (fp3_moment0 (fun s => D (c * n + s)%Z)); auto. apply Hs. lia.
   Qed.
+
+  (** *** 4-point one-sided stencil, switching sides at row [m] *)
+  Definition ind (b : bool) : K := if b then 1 else 0.
+  Definition is_lo (y : Z) : bool := ((2 <=? y) && (y <? m))%Z.
+  Definition is_hi (y : Z) : bool := ((m <=? y) && (y <? n - 2))%Z.
+
+  Definition dom4 : Prop := (n < 2 ^ 32 /\ 2 <= m <= n - 2 /\ m <= lo_end <= m + 1)%Z.
+
+  Lemma sum5 a (g : Z -> K) : sumZ a 5 g = g a + g (a + 1)%Z + g (a + 2)%Z + g (a + 3)%Z + g (a + 4)%Z.
+  Proof.
+    cbn [sumZ]. replace (a + 1 + 1)%Z with (a + 2)%Z by lia.
+    replace (a + 2 + 1)%Z with (a + 3)%Z by lia. replace (a + 3 + 1)%Z with (a + 4)%Z by lia. ring.
+  Qed.
+
+  Lemma fp_row4 y : dom4 ->
+    fp_row e1 delta p 4 v n lo_end m y =
+    if is_lo y then row4lo e1 delta dmp dif y (p y)
+    else if is_hi y then row4hi e1 delta dmp dif y (p y) else zero_row 4.
+  Proof.
+    intros (Hn & Hm & Hle). unfold fp_row, is_lo, is_hi, fp4_first, fp4_last_off.
+    change (4 =? 3)%Z with false. cbv iota.
+    destruct (Z_lt_dec y 2); destruct (Z_lt_dec y m); destruct (Z_lt_dec y (n - 2)); zb; try reflexivity; try lia.
+    destruct (Z.eq_dec y (n - 2)); [zb; reflexivity|]. destruct (Z.eq_dec y (n - 1)); zb; reflexivity.
+  Qed.
+
+  Lemma G4_row mlt k y : dom4 -> (k <> 0)%Z ->
+    G 4 H4 mlt k y =
+    ind (is_lo y) * (ind (y - 2 =? k)%Z * (mlt y * wlo 0 y) + ind (y - 1 =? k)%Z * (mlt y * wlo 1 y)
+                     + ind (y =? k)%Z * (mlt y * wlo 2 y) + ind (y + 1 =? k)%Z * (mlt y * wlo 3 y))
+    + ind (is_hi y) * (ind (y - 1 =? k)%Z * (mlt y * whi 0 y) + ind (y =? k)%Z * (mlt y * whi 1 y)
+                       + ind (y + 1 =? k)%Z * (mlt y * whi 2 y) + ind (y + 2 =? k)%Z * (mlt y * whi 3 y)).
+  Proof.
+    intros Hd Hk. pose proof Hd as (Hn & Hm & Hle).
+    unfold G. change (Z.to_nat 4) with 4%nat. rewrite sum4.
+    change (0 + 1)%Z with 1%Z. change (0 + 2)%Z with 2%Z. change (0 + 3)%Z with 3%Z. unfold H4.
+    rewrite !hinfo_at by lia. rewrite fp_row4 by exact Hd.
+    change (Z.to_nat 0) with 0%nat. change (Z.to_nat 1) with 1%nat. change (Z.to_nat 2) with 2%nat.
+    change (Z.to_nat 3) with 3%nat.
+    destruct (is_lo y) eqn:E1; [|destruct (is_hi y) eqn:E2].
+    - assert (E2 : is_hi y = false).
+      { unfold is_lo, is_hi in *. apply andb_true_iff in E1. destruct E1 as [A B]. apply Z.ltb_lt in B.
+        replace (m <=? y)%Z with false by (symmetry; apply Z.leb_gt; lia). reflexivity. }
+      rewrite E2. unfold is_lo in E1. apply andb_true_iff in E1. destruct E1 as [A B].
+      apply Z.leb_le in A. apply Z.ltb_lt in B.
+      unfold wlo, row4lo. cbn [nth fst snd ind]. rewrite !u32_small by lia.
+      destruct (y - 2 =? k)%Z, (y - 1 =? k)%Z, (y =? k)%Z, (y + 1 =? k)%Z; cbn [ind]; ring.
+    - unfold is_hi in E2. apply andb_true_iff in E2. destruct E2 as [A B].
+      apply Z.leb_le in A. apply Z.ltb_lt in B.
+      unfold whi, row4hi. cbn [nth fst snd ind]. rewrite !u32_small by lia.
+      destruct (y - 1 =? k)%Z, (y =? k)%Z, (y + 1 =? k)%Z, (y + 2 =? k)%Z; cbn [ind]; ring.
+    - rewrite !nth_zero_row. cbn [fst snd ind].
+      replace (0 =? k)%Z with false by (symmetry; apply Z.eqb_neq; lia). ring.
+  Qed.
+
+  Lemma H4_index_range y j : dom4 -> (0 <= y < n)%Z -> (0 <= j < 4)%Z ->
+    (0 <= fst (H4 (y * 4 + j)%Z) < n)%Z.
+  Proof.
+    intros Hd Hy Hj. pose proof Hd as (Hn & Hm & Hle). unfold H4. rewrite hinfo_at by lia.
+    rewrite fp_row4 by exact Hd.
+    destruct (is_lo y) eqn:E1; [|destruct (is_hi y) eqn:E2].
+    - unfold is_lo in E1. apply andb_true_iff in E1. destruct E1 as [A B].
+      apply Z.leb_le in A. apply Z.ltb_lt in B.
+      assert (j = 0 \/ j = 1 \/ j = 2 \/ j = 3)%Z as [ -> | [ -> | [ -> | -> ] ] ] by lia; unfold row4lo;
+        [change (Z.to_nat 0) with 0%nat | change (Z.to_nat 1) with 1%nat | change (Z.to_nat 2) with 2%nat
+         | change (Z.to_nat 3) with 3%nat]; cbn [nth fst]; rewrite ?u32_small by lia; lia.
+    - unfold is_hi in E2. apply andb_true_iff in E2. destruct E2 as [A B].
+      apply Z.leb_le in A. apply Z.ltb_lt in B.
+      assert (j = 0 \/ j = 1 \/ j = 2 \/ j = 3)%Z as [ -> | [ -> | [ -> | -> ] ] ] by lia; unfold row4hi;
+        [change (Z.to_nat 0) with 0%nat | change (Z.to_nat 1) with 1%nat | change (Z.to_nat 2) with 2%nat
+         | change (Z.to_nat 3) with 3%nat]; cbn [nth fst]; rewrite ?u32_small by lia; lia.
+    - rewrite nth_zero_row. cbn [fst]. lia.
+  Qed.
+
+  (** weight of input cell [k] in [sum_y mlt(y) out(y)], 4-point stencil: four rows of each kind can
+      reach [k]; which of them exist depends on where [k] lies relative to [m] and to the border *)
+  Definition cw4 (mlt : Z -> K) (k : Z) : K :=
+    ind (is_lo (k + 2)) * (mlt (k + 2)%Z * wlo 0 (k + 2)) + ind (is_lo (k + 1)) * (mlt (k + 1)%Z * wlo 1 (k + 1))
+    + ind (is_lo k) * (mlt k * wlo 2 k) + ind (is_lo (k - 1)) * (mlt (k - 1)%Z * wlo 3 (k - 1))
+    + ind (is_hi (k + 1)) * (mlt (k + 1)%Z * whi 0 (k + 1)) + ind (is_hi k) * (mlt k * whi 1 k)
+    + ind (is_hi (k - 1)) * (mlt (k - 1)%Z * whi 2 (k - 1)) + ind (is_hi (k - 2)) * (mlt (k - 2)%Z * whi 3 (k - 2)).
+
+  Lemma colw4_eval mlt k : dom4 -> (2 <= k <= n - 3)%Z -> colw 4 H4 mlt n k = cw4 mlt k.
+  Proof.
+    intros Hd Hk. pose proof Hd as (Hn & Hm & Hle). unfold colw. fold (G 4 H4 mlt k).
+    rewrite (sum_window K (G 4 H4 mlt k) (k - 2) (k + 3) 0 (Z.to_nat n)); try lia.
+    2:{ intros y Hy. rewrite G4_row by (assumption || lia). zb. cbn [ind]. ring. }
+    replace (Z.to_nat (k + 3 - (k - 2))) with 5%nat by lia. rewrite sum5.
+    rewrite !G4_row by (assumption || lia).
+    replace (k - 2 + 1)%Z with (k - 1)%Z by lia. replace (k - 2 + 2)%Z with k by lia.
+    replace (k - 2 + 3)%Z with (k + 1)%Z by lia. replace (k - 2 + 4)%Z with (k + 2)%Z by lia.
+    unfold cw4.
+    generalize (is_lo (k - 2)), (is_lo (k - 1)), (is_lo k), (is_lo (k + 1)), (is_lo (k + 2)),
+               (is_hi (k - 2)), (is_hi (k - 1)), (is_hi k), (is_hi (k + 1)), (is_hi (k + 2)).
+    intros b1 b2 b3 b4 b5 c1 c2 c3 c4 c5.
+    zb. cbn [ind]. ring.
+  Qed.
+
+  Lemma fp4_weighted (r mlt : Z -> K) : dom4 -> (4 <= n)%Z -> supp r 2 (n - 2) ->
+    sumZ 0 (Z.to_nat n) (fun y => mlt y * fp_col_out 4 H4 r y) =
+    sumZ 0 (Z.to_nat n) (fun k => r k * cw4 mlt k).
+  Proof.
+    intros Hd Hn4 Hs. pose proof Hd as (Hn & Hm & Hle).
+    rewrite col_transpose; [|lia|lia|intros; apply H4_index_range; (assumption || lia)].
+    apply sumZ_ext; intros k Hk.
+    destruct (Z_le_dec 2 k) as [H2|H2]; [destruct (Z_le_dec k (n - 3)) as [H3'|H3']|].
+    - rewrite colw4_eval by (assumption || lia). reflexivity.
+    - rewrite Hs by lia. ring.
+    - rewrite Hs by lia. ring.
+  Qed.
+
+  (** column sums of the 4-point operator: the defect coefficient of row [k] (times [e1] with damping) *)
+  Definition six : K := two * three.
+  Definition c4 (k : Z) : K :=
+    if (k =? m - 2)%Z then - (p m) / (six * delta)
+    else if (k =? m - 1)%Z then (three * p m - delta) / (six * delta)
+    else if (k =? m)%Z then - (three * p m - two * delta) / (six * delta)
+    else if (k =? m + 1)%Z then (p m - delta) / (six * delta)
+    else 0.
+
+  Lemma p_add2 : uniform -> forall k, p (k + 2)%Z = p k + delta + delta.
+  Proof. intros Hax k. replace (k + 2)%Z with (k + 1 + 1)%Z by lia. rewrite !Hax. ring. Qed.
+  Lemma p_sub2 : uniform -> forall k, p (k - 2)%Z = p k - delta - delta.
+  Proof. intros Hax k. replace (k - 2)%Z with (k - 1 - 1)%Z by lia. rewrite !(p_pred Hax). ring. Qed.
+
+  Ltac fp4_field Hax Hd k :=
+    unfold cw4, is_lo, is_hi; zb; cbn [ind]; unfold wlo, whi, row4lo, row4hi; cbn [nth snd];
+    rewrite ?(Hax k), ?(p_pred Hax k), ?(p_add2 Hax k), ?(p_sub2 Hax k);
+    unfold dmp, dif, opt, e1_6d, e1_d2, six, two, three; destruct (has_damp v), (has_diff v);
+    field; repeat split; (exact Hd || fld_nz1 K).
+
+  Lemma cw4_one_lo k : dom4 -> uniform -> delta <> 0 -> (3 <= k <= m - 3)%Z -> cw4 (fun _ => 1) k = 1.
+  Proof. intros (Hn & Hm & Hle) Hax Hd Hk. fp4_field Hax Hd k. Qed.
+
+  Lemma cw4_one_hi k : dom4 -> uniform -> delta <> 0 -> (m + 2 <= k <= n - 4)%Z -> cw4 (fun _ => 1) k = 1.
+  Proof. intros (Hn & Hm & Hle) Hax Hd Hk. fp4_field Hax Hd k. Qed.
+
+  Lemma cw4_one_sw k : dom4 -> uniform -> delta <> 0 -> (5 <= m <= n - 5)%Z -> (m - 2 <= k <= m + 1)%Z ->
+    cw4 (fun _ => 1) k = 1 + opt dmp e1 * c4 k.
+  Proof.
+    intros (Hn & Hm & Hle) Hax Hd Hm5 Hk.
+    assert (k = m - 2 \/ k = m - 1 \/ k = m \/ k = m + 1)%Z as [E|[E|[E|E]]] by lia.
+    - assert (Epm : p m = p k + delta + delta) by (replace m with (k + 2)%Z by lia; apply p_add2; exact Hax).
+      unfold c4. zb. rewrite Epm. fp4_field Hax Hd k.
+    - assert (Epm : p m = p k + delta) by (replace m with (k + 1)%Z by lia; apply Hax).
+      unfold c4. zb. rewrite Epm. fp4_field Hax Hd k.
+    - assert (Epm : p m = p k) by (f_equal; lia).
+      unfold c4. zb. rewrite Epm. fp4_field Hax Hd k.
+    - assert (Epm : p m = p k - delta) by (replace m with (k - 1)%Z by lia; apply p_pred; exact Hax).
+      unfold c4. zb. rewrite Epm. fp4_field Hax Hd k.
+  Qed.
+
+  (** every interior column sum of the 4-point operator *)
+  Lemma fp4_column_sum k : dom4 -> uniform -> delta <> 0 -> (5 <= m <= n - 5)%Z -> (3 <= k <= n - 4)%Z ->
+    colw 4 H4 (fun _ => 1) n k = 1 + opt dmp e1 * c4 k.
+  Proof.
+    intros Hdm Hax Hd Hm5 Hk. rewrite colw4_eval by (assumption || lia).
+    destruct (Z_lt_dec k (m - 2)); [|destruct (Z_lt_dec (m + 1) k)].
+    - rewrite cw4_one_lo by (assumption || lia). unfold c4. zb. ring.
+    - rewrite cw4_one_hi by (assumption || lia). unfold c4. zb. ring.
+    - apply cw4_one_sw; (assumption || lia).
+  Qed.
+
+  (** C01.5: the charge defect of the 4-point step is e1 times a combination of the four switch rows *)
+  Lemma fp4_defect (r : Z -> K) : dom4 -> uniform -> delta <> 0 -> (5 <= m <= n - 5)%Z -> supp r 3 (n - 3) ->
+    S0 (fp_col_out 4 H4 r) =
+    S0 r + opt dmp e1 * (r (m - 2)%Z * c4 (m - 2) + r (m - 1)%Z * c4 (m - 1) + r m * c4 m + r (m + 1)%Z * c4 (m + 1)).
+  Proof.
+    intros Hdm Hax Hd Hm5 Hs. pose proof Hdm as (Hn & Hm & Hle). unfold S0.
+    rewrite (sumZ_ext K _ _ _ (fun y => 1 * fp_col_out 4 H4 r y)) by (intros; ring).
+    pose proof (fp4_weighted r (fun _ => 1) Hdm) as W. cbv beta in W. rewrite W; [|lia|intros i Hi; apply Hs; lia].
+    clear W.
+    rewrite (sumZ_ext K _ _ _ (fun k => r k + opt dmp e1 * (r k * c4 k))).
+    2:{ intros k Hk. destruct (Z_le_dec 3 k); [destruct (Z_le_dec k (n - 4))|].
+        - rewrite <- colw4_eval by (assumption || lia). rewrite fp4_column_sum by (assumption || lia). ring.
+        - rewrite Hs by lia. ring.
+        - rewrite Hs by lia. ring. }
+    rewrite sumZ_add, sumZ_scale. f_equal. f_equal.
+    rewrite (sum_window K (fun k => r k * c4 k) (m - 2) (m + 2) 0 (Z.to_nat n)); try lia.
+    2:{ intros k Hk. unfold c4. zb. ring. }
+    replace (Z.to_nat (m + 2 - (m - 2))) with 4%nat by lia. rewrite sum4.
+    replace (m - 2 + 1)%Z with (m - 1)%Z by lia. replace (m - 2 + 2)%Z with m by lia.
+    replace (m - 2 + 3)%Z with (m + 1)%Z by lia. ring.
+  Qed.
+
+  (** without damping the 4-point step conserves exactly *)
+  Lemma fp4_conserves_nodamp (r : Z -> K) : dom4 -> uniform -> delta <> 0 -> (5 <= m <= n - 5)%Z ->
+    supp r 3 (n - 3) -> has_damp v = false -> S0 (fp_col_out 4 H4 r) = S0 r.
+  Proof. intros Hdm Hax Hd Hm5 Hs Hv. rewrite fp4_defect by assumption. unfold dmp. rewrite Hv. unfold opt. ring. Qed.
+
+  (** the four defect coefficients cancel: a locally constant distribution does not leak *)
+  Lemma c4_sum : delta <> 0 -> (c4 (m - 2) + c4 (m - 1) + c4 m + c4 (m + 1)) = 0.
+  Proof. intros Hd. unfold c4. zb. unfold six, two, three. field. repeat split; (exact Hd || fld_nz1 K). Qed.
+
+  Lemma fp3_column_sums k : (n < 2 ^ 32)%Z -> (2 <= k <= n - 3)%Z -> uniform -> delta <> 0 ->
+    colw 3 H3 (fun _ => 1) n k = 1.
+  Proof. intros Hn Hk Hax Hd. rewrite colw3_eval by assumption. apply cw3_one; assumption. Qed.
+
+  Lemma c4_outside k : (k < m - 2 \/ m + 1 < k)%Z -> c4 k = 0.
+  Proof. intros Hk. unfold c4. zb. reflexivity. Qed.
+
+  Definition sw4 (r : Z -> K) : K :=
+    r (m - 2)%Z * c4 (m - 2) + r (m - 1)%Z * c4 (m - 1) + r m * c4 m + r (m + 1)%Z * c4 (m + 1).
+
+  Lemma fp4_defect_grid xs nb (D : Z -> K) :
+    dom4 -> uniform -> delta <> 0 -> (5 <= m <= n - 5)%Z -> (0 < xs)%Z -> (0 <= nb)%Z ->
+    (forall c, (0 <= c < nb * xs)%Z -> supp (fun s => D (c * n + s)%Z) 3 (n - 3)) ->
+    sumZ 0 (Z.to_nat (nb * xs * n)) (fp_apply n xs 4 H4 D) =
+    sumZ 0 (Z.to_nat (nb * xs * n)) D +
+    opt dmp e1 * sumZ 0 (Z.to_nat (nb * xs)) (fun c => sw4 (fun s => D (c * n + s)%Z)).
+  Proof.
+    intros Hdm Hax Hd Hm5 Hxs Hnb Hs. pose proof Hdm as (Hn & Hm & Hle).
+    rewrite (sumZ_ext K _ _ _ (fun i => 1 * fp_apply n xs 4 H4 D i)) by (intros; ring).
+    pose proof (fp_grid_sum n xs nb 4 H4 D (fun _ => 1)) as W. cbv beta in W. rewrite W by lia. clear W.
+    rewrite plain_grid_sum by nia. rewrite <- sumZ_scale, <- sumZ_add.
+    apply sumZ_ext. intros c Hc.
+    rewrite (sumZ_ext K _ _ _ (fp_col_out 4 H4 (fun s => D (c * n + s)%Z))) by (intros; ring).
+    apply (fp4_defect (fun s => D (c * n + s)%Z)); auto. apply Hs. lia.
+  Qed.
 End FPP.
